@@ -187,7 +187,7 @@ func init() {
 			"oracle: snapshot-fed and change-fed replicas and the server rebuild agree after the quiescent closure and whenever two replicas are at the same checkpoint, " +
 			"clone==root, and the server rebuild at EVERY serverSeq 1..head (cold cache, warm descending, warm ascending) equals an independent one-by-one replay of the stored change log; " +
 			"non-trivial = concurrent edits by different clients",
-		Assume: []string{"memdb backend", "small-scope bounds per scenario name"},
+		Assume:      []string{"memdb backend", "small-scope bounds per scenario name"},
 		QuickBudget: 170 * time.Second,
 	})
 }
